@@ -498,6 +498,21 @@ def typing_programs():
         {"f": Fn(["n"], Block([Let("i", I(0)), Loop(Block([For("k", Range(I(0), I(2)), Block([Expr(Asg(V("i"), I(1), "+="))])),
                                                             Expr(If(Bin(">", V("i"), V("n")), Block([Break()])))])), Ret(V("i"))]), "int"),
          "main": Fn([], Block([Print(Call("f", I(3)))]))})
+    # a diverging expression earlier in the module (or function) does not make a later endless loop terminate
+    spin = Fn(["n"], Block([Let("i", I(0)), Loop(Block([Expr(If(Bin(">", V("i"), V("n")), Block([Ret(V("i"))]))), Expr(Asg(V("i"), I(1), "+="))]))]), "int")
+    add("never_then_loop_fn",
+        {"boom": Fn(["n"], Block([Expr(If(Bin(">", V("n"), I(100)), Block([Expr(Call("throw", S("too big")))])))], V("n")), "int"),
+         "spin": spin, "main": Fn([], Block([Print(Call("boom", I(1)), Call("spin", I(2)))]))})
+    add("never_then_loop_same",
+        {"f": Fn(["n"], Block([Expr(If(Bin(">", V("n"), I(100)), Block([Expr(Call("throw", S("too big")))]))), Let("v", Block([Expr(If(Bin("<", V("n"), I(0)), Block([Ret(I(0))])))], I(1))),
+                               Let("i", V("v")), Loop(Block([Expr(If(Bin(">", V("i"), V("n")), Block([Ret(V("i"))]))), Expr(Asg(V("i"), I(1), "+="))]))]), "int"),
+         "main": Fn([], Block([Print(Call("f", I(2)))]))})
+    # leaving the function from inside a loop (block ending in return as a match arm, a throw) is no way out of the loop
+    add("loop_diverging_arm",
+        {"f": Fn(["x"], Block([Loop(Block([Expr(Match(V("x"), [([I(1)], Block([Ret(I(1))]))], Block([Expr(Asg(V("x"), I(1), "-="))])))]))]), "int"),
+         "g": Fn(["x"], Block([Loop(Block([Expr(If(Bin("<", V("x"), I(0)), Block([Expr(Call("throw", S("neg")))]))),
+                                            Expr(If(Bin("==", V("x"), I(0)), Block([Expr(Block([Ret(S("zero"))]))]))), Expr(Asg(V("x"), I(1), "-="))]))]), "str"),
+         "main": Fn([], Block([Print(Call("f", I(3)), Call("g", I(2)))]))})
     add("globals", {"bump": Fn([], Block([Expr(Asg(V("cnt"), I(1), "+=")), Expr(MCall(V("names"), "push", S("x")))]), "null"),
                     "main": Fn([], Block([Expr(Call("bump")), Print(V("cnt"), V("names"), Mem(V("conf"), "depth"), V("ratio"), V("limit"))]))},
         globs=[("cnt", I(0)), ("names", List(S("a"))), ("conf", Obj(depth=I(2), tag=S("t"))), ("ratio", Bin("/", F(1, 0), F(2, 0))), ("limit", Un("-", I(5)))])
